@@ -25,9 +25,11 @@ impl EdgeTraversal {
 }
 // run_a_star by its contract (proved in unit AL)
 #[verifier::external_body]
-pub fn run_a_star(source: VertexId, target: Option<VertexId>, direction: &Direction, weight_factor: Option<Cost>, si: &SearchInstance, Ghost(callers): Ghost<(Direction, Option<Cost>)>) -> (res: Result<SearchResult, SearchError>)
+pub fn run_a_star(source: VertexId, target: Option<VertexId>, direction: &Direction, weight_factor: Option<Cost>, si: &SearchInstance, Ghost(callers): Ghost<(Direction, Option<Cost>, VertexId)>) -> (res: Result<SearchResult, SearchError>)
     // C02 / C01 obligation at every call site (rule R-ghost): the inner search runs in the CALLER's direction with the CALLER's weight factor (Dijkstra is factor 0: dropping it turns Dijkstra into A*)
     requires *direction == callers.0, weight_factor == callers.1,
+             // C05 / C01 obligation at every call site: the vertex search behind an edge-oriented query is rooted at the HEAD of the origin edge (what lies behind its tail is not downstream of it)
+             source == callers.2,
     ensures res matches Ok(r) ==> search_post(si, *direction, source, target, r),
 { unimplemented!() }
 #[verifier::external_body] pub fn verif_to_vec(v: &Vec<StateVar>) -> (r: Vec<StateVar>) ensures r@ == v@ { v.to_vec() }
@@ -78,7 +80,7 @@ def build(x):
     f.rewrite(r"tree\.extend\(\[\((\w+), (\w+)\)\]\);", r"verif_extend1(&mut tree, \1, \2);", 3, 3, rule="R-extend")
     x.note("R-extend", "run_a_star_edge_oriented: `tree.extend([(k, v)])` written as verif_extend1(&mut tree, k, v) (assumed: inserts the pair)")
     f.rewrite(r"\.ok_or_else\(\|\| \{\s*SearchError::InternalError\(verif_format\(\)\)\s*\}\)", ".ok_or_else(|| -> (cr: SearchError) ensures cr is InternalError { SearchError::InternalError(verif_format()) })", 1, 1, rule="R-closure")
-    f.rewrite(r"run_a_star\(((?:[^();]|\([^()]*\))*)\)", r"run_a_star(\1, Ghost((*direction, weight_factor)))", 1, 4, rule="R-ghost")
+    f.rewrite(r"run_a_star\(((?:[^();]|\([^()]*\))*)\)", r"run_a_star(\1, Ghost((*direction, weight_factor, edge_of(&si.directed_graph, source).dst_vertex_id)))", 1, 4, rule="R-ghost")
     x.note("R-ghost", "run_a_star_edge_oriented: every call `run_a_star(..)` gets a ghost argument carrying the caller's (direction, weight_factor); the callee's contract REQUIRES the arguments actually passed to equal them")
     f.name_return("res")
     f.add_spec("""    requires *direction is Forward,
